@@ -133,6 +133,16 @@ TRY_FORMS = {
 TRY_NAMES = sorted(TRY_FORMS)
 
 
+NATIVE_START_SITES = {
+    "start_in_forEach": "[1].forEach(function(x){ %s });",
+    "start_in_sort": "[2,1].sort(function(a,b){ %s return 0; });",
+    "start_in_getter": "({get q(){ %s return 1; }}).q;",
+    "start_in_valueOf": "({valueOf:function(){ %s return 1; }}) * 2;",
+    "start_in_call": "(function(){ %s }).call(null);",
+    "start_in_apply": "(function(){ %s }).apply(null, []);",
+}
+
+
 def render(cell):
     shape, pend = cell["shape"], cell["pend"]
     g = "if(n >= %d) return 0;" % cell["depth"] if cell["stratum"] == "scale" else ""
@@ -153,6 +163,10 @@ def render(cell):
         body = "new Function(%s)();" % json.dumps(body.replace("var d=0", "d=0"))
     elif site == "function":
         body = "(function(){ %s })();" % body
+    elif site in NATIVE_START_SITES:
+        # the recursion starts inside script code that a built-in is running (the second
+        # interpreter loop): declarations stay global, only the start statement moves
+        body = "%s\n%s" % (decl, NATIVE_START_SITES[site] % start)
     return "var d=0, A1=[1], A2=[1,2];\n%s\n\"done\";" % body
 
 
@@ -174,9 +188,11 @@ def gen_case(seed, i, tier="quick"):
     else:
         stratum = "A"
     cell = {"stratum": stratum, "shape": shape, "pend": pend, "try": tr,
-            "site": rng.choice(("top", "top", "top", "eval", "eval2", "newfn", "function"))}
+            "site": rng.choice(("top", "top", "top", "eval", "eval2", "newfn", "function") + tuple(sorted(NATIVE_START_SITES)))}
     if shape in ("closure", "arrow", "method", "getter", "setter", "valueOf", "newfn") and cell["site"] == "newfn":
         cell["site"] = "eval"     # these shapes declare with var/object literals that need program scope
+    if stratum == "scale" and cell["site"] in NATIVE_START_SITES and cell.get("try") == "outer_try_loop":
+        cell["try"] = "outer_try"
     if shape in ("eval", "newfn") and cell["site"] in ("function", "newfn"):
         cell["site"] = "eval2"    # their nested code refers to the recursive function as a global
     case = {"property": PROPERTY, "seed": seed, "index": i, "cell": cell,
